@@ -727,6 +727,58 @@ fn gen_boundary(i: u64, rng: &mut Rng, thorough: bool) -> Option<BndCase> {
     }
 }
 
+struct PadCase {
+    groups: Vec<Group>,
+    kind: String,
+    /// the padding run the writer must produce: [start, end) with `end` on a block boundary
+    pad: (usize, usize),
+}
+
+/// stream 7: directed padding.  The reader's `true_up` reads the bytes it skips and accepts only the
+/// writer's zeros (repair of D-11): every length of real padding is read back through that check —
+/// a frame ending exactly d = 1..=19 bytes before a block boundary followed by an append that does
+/// not fit (d zero bytes, the next frame on the boundary), and the split path (a FIRST frame, then
+/// 9 / 8 / 7 zero bytes according to the length of its size varint, the SECOND frame on the
+/// boundary), in the first block and behind a first block that itself ends in padding.
+fn gen_padding(i: u64, rng: &mut Rng) -> Option<PadCase> {
+    let blk = if i >= 26 && rng.chance(1, 2) { 1 } else { 0 };
+    let mut groups: Vec<Group> = vec![];
+    if blk == 1 {
+        let gap = 1 + rng.below(17) as usize;
+        groups.extend(lead_to(0, BLOCK - gap, rng)?);
+    }
+    let base = blk * BLOCK;
+    let sel = if i < 26 { i } else { rng.below(26) };
+    if sel < 19 {
+        let d = sel as usize + 1;
+        let l = *rng.pick(&[8usize, 8, 9, 30, 120, 121, 2000]);
+        let p0 = BLOCK - d - frame_size(l);
+        groups.extend(lead_to(0, p0, rng)?);
+        groups.push(vec![make_batch(l, rng)?]);
+        // never fits in the d <= 19 bytes that are left
+        groups.push(vec![make_batch(rng.range(20, 400) as usize, rng)?]);
+        groups.push(vec![small_batch(rng)]);
+        Some(PadCase { groups, kind: format!("pad-{}", d), pad: (base + BLOCK - d, base + BLOCK) })
+    } else {
+        // roundup r > HEADER_MAX_SIZE: a FIRST frame of r - 19 payload bytes, then padding
+        let r = match sel {
+            19 => 20,
+            20 => 21,
+            21 => HMAX + 127,
+            22 => HMAX + 128,
+            23 => HMAX + 16383,
+            24 => HMAX + 16384,
+            _ => rng.range(20, 40000) as usize,
+        };
+        let first = r - HMAX;
+        let z = 10 - vl(first as u64);
+        groups.extend(lead_to(0, BLOCK - r, rng)?);
+        groups.push(vec![make_batch(r + rng.range(1, 300) as usize, rng)?]);
+        groups.push(vec![small_batch(rng)]);
+        Some(PadCase { groups, kind: format!("split-pad-{}", z), pad: (base + BLOCK - z, base + BLOCK) })
+    }
+}
+
 /// statistics from the walker: how the frames sit relative to block boundaries
 fn structure_counters(rec: &mut Recorder, pfx: &str, bytes: &[u8]) {
     if let Ok((fr, pads)) = walk(bytes) {
@@ -1915,6 +1967,44 @@ fn run_concurrent(args: &Args, rec: &mut Recorder, dir: &str) {
     }
 }
 
+// ---------------------------------------------------------------------------------------------
+// stream 7: directed padding, every length, read back through the reader's zero check
+// (runs after the concurrent stream: the case numbers of the older streams stay what they were)
+fn run_padding(args: &Args, rec: &mut Recorder) {
+    let n_pad = if args.thorough { 80 } else { 26 };
+    for i in 0..n_pad {
+        if !rec.wants() {
+            rec.skip();
+            continue;
+        }
+        let mut rng = Rng::for_case(args.seed, 7, i);
+        let case = (0..50).find_map(|_| gen_padding(i, &mut rng));
+        let case = match case {
+            Some(c) => c,
+            None => {
+                rec.count("pad.generator_gave_up");
+                rec.corr("log w", &format!("{} read=0:{:016x}:end", summary(&[]), FNV_INIT), None);
+                continue;
+            }
+        };
+        let (rb, wb) = (gen_knob(&mut rng), gen_knob(&mut rng));
+        let (req, obs, v, bytes) = case_write(&case.groups, rb, wb, None);
+        rec.count("pad");
+        rec.count(&format!("pad.kind.{}", case.kind));
+        if let Some(b) = &bytes {
+            structure_counters(rec, "pad", b);
+            // the generator's plan, checked on the bytes the real writer produced: the padding run
+            // is there, it is all zero, and a frame starts right after it
+            let planned = match walk(b) {
+                Ok((fr, pads)) => pads.contains(&case.pad) && b[case.pad.0..case.pad.1].iter().all(|x| *x == 0) && fr.iter().any(|f| f.start == case.pad.1),
+                Err(_) => false,
+            };
+            rec.count(if planned { "pad.layout_as_planned" } else { "pad.layout_not_as_planned" });
+        }
+        rec.case(&req, &obs, v, Some(fnv(req.as_bytes())));
+    }
+}
+
 pub fn run(args: &Args) {
     if args.rest.first().map(|s| s.as_str()) == Some("--conc-child") {
         conc_child(args);
@@ -1925,9 +2015,10 @@ pub fn run(args: &Args) {
     std::fs::create_dir_all(&dir).unwrap();
     run_sequential(args, &mut rec);
     run_concurrent(args, &mut rec, &dir);
+    run_padding(args, &mut rec);
     let _ = std::fs::remove_dir_all(&dir);
     rec.finish(
-        "six seeded streams: small batch sequences; >=1 MiB files whose frames end 0..21 bytes before a block boundary / on it / 1..24 and many bytes past it, tiny (8-byte) and maximal (MAX_BATCH_SIZE-1..BLOCK_SIZE) batches; every truncation of small files; every cut within +-64 (thorough +-96) bytes of every frame/header/padding/block boundary near the block boundary of >=1 MiB files; header/length/padding mutations of small files (reader correspondence only); 2..8 threads through ConcurrentLogBuilder on a real file with fsync() callers interleaved, plus two directed schedules (one or two appends, then an fsync() caller, queued behind an fsync leader held inside fdatasync); durability at return observed by an in-process fdatasync probe in every run and by strace in some. Non-trivial = a sequence of >= 2 appends, any boundary/truncation/mutation case, any concurrent run; distinct by request text (concurrent runs: by plan, since the grouping into frames is schedule dependent; counters named conc.sched.* vary between runs of one seed)",
+        "seven seeded streams: small batch sequences; >=1 MiB files whose frames end 0..21 bytes before a block boundary / on it / 1..24 and many bytes past it, tiny (8-byte) and maximal (MAX_BATCH_SIZE-1..BLOCK_SIZE) batches; every truncation of small files; every cut within +-64 (thorough +-96) bytes of every frame/header/padding/block boundary near the block boundary of >=1 MiB files; header/length/padding mutations of small files (reader correspondence only); directed padding (a frame ending exactly 1..=19 bytes before a block boundary followed by an append that does not fit, and split appends whose FIRST frame is followed by 9/8/7 zero bytes, in the first block and behind a padded first block: every length of real padding read back through the reader's check that skipped bytes are zero); 2..8 threads through ConcurrentLogBuilder on a real file with fsync() callers interleaved, plus two directed schedules (one or two appends, then an fsync() caller, queued behind an fsync leader held inside fdatasync); durability at return observed by an in-process fdatasync probe in every run and by strace in some. Non-trivial = a sequence of >= 2 appends, any boundary/truncation/mutation case, any concurrent run; distinct by request text (concurrent runs: by plan, since the grouping into frames is schedule dependent; counters named conc.sched.* vary between runs of one seed)",
         &[],
     );
 }
